@@ -11,6 +11,8 @@
 package c10
 
 import (
+	"github.com/tuneinsight/lattigo/v6/utils/bignum"
+	"math/big"
 	"bufio"
 	"crypto/sha256"
 	"encoding/binary"
@@ -675,6 +677,22 @@ func subjects() []*subject {
 				pt := ckks.NewPlaintext(f.cp, 0)
 				pt.LogDimensions.Cols = 2
 				err := o.(*ckks.Encoder).Encode([]float64{1, -2, 0.5, 3}, pt)
+				return dg(pt), err
+			}},
+			// values that need the whole working precision, at a scale of 2^100, after float64 input has gone through
+			// the same buffers: the plaintext depends on every bit the encoder keeps
+			{"Encode high-precision values at scale 2^100", func(o interface{}) (string, error) {
+				e := o.(*ckks.Encoder)
+				n := f.cp.MaxSlots()
+				v := make([]*bignum.Complex, n)
+				for i := range v {
+					re := new(big.Float).SetPrec(128).Quo(big.NewFloat(1).SetPrec(128), new(big.Float).SetPrec(128).SetInt64(int64(2*i+3)))
+					im := new(big.Float).SetPrec(128).Quo(big.NewFloat(-1).SetPrec(128), new(big.Float).SetPrec(128).SetInt64(int64(2*i+7)))
+					v[i] = &bignum.Complex{re, im}
+				}
+				pt := ckks.NewPlaintext(f.cp, f.cp.MaxLevel())
+				pt.Scale = rlwe.NewScale(new(big.Float).SetPrec(128).SetMantExp(big.NewFloat(1), 100))
+				err := e.Encode(v, pt)
 				return dg(pt), err
 			}},
 		}, copies: []copyKind{{"ShallowCopy", true, false, func(o interface{}) interface{} { return o.(*ckks.Encoder).ShallowCopy() }}}})
